@@ -95,7 +95,7 @@ def random_match_case(rng, exact=True, scope="in"):
          "mode": mode, "strategy": strategy, "trule": rng.choice(RULES), "rrule": rng.choice(RULES),
          "given": [] if mode == "search" else [R(xs[i]) for i in fpi] if mode == "positions" else list(fpi),
          "exact": exact, "bounded": True, "mc": False, "ycontainer": ycont}
-    if mode == "indices" and rng.random() < 0.3:
+    if mode in ("indices", "positions") and rng.random() < 0.3:
         c["given"] = list(reversed(c["given"])) + c["given"][:1]          # unsorted with a duplicate: np.unique
     if exact:
         # keep the exact model inside TLC's 32-bit rationals: higher powers only on short windows
